@@ -154,7 +154,16 @@ def import_flux_expr(st, flipped):
     return 1 if flipped else -1
 
 
-def check_minimal_medium(net, bounds, flip, stats, rich=False):
+def check_minimal_medium(net, bounds, flip, stats, rich=False, origin=None):
+    out = _check_minimal_medium(net, bounds, flip, stats, rich, origin)
+    if origin:
+        for sg, cs, _ in out:
+            sg["origin"] = origin
+            cs["origin"] = origin
+    return out
+
+
+def _check_minimal_medium(net, bounds, flip, stats, rich=False, origin=None):
     from cobra.medium import minimal_medium
 
     mets, rxns = families.as_data(net, bounds)
@@ -171,6 +180,15 @@ def check_minimal_medium(net, bounds, flip, stats, rich=False):
         model = families.build_model(mets, rxns, compartments=comp, flip=flip)
         sgn_obj = -1 if oid in flip else 1
         model.objective = {model.reactions.get_by_id(oid): sgn_obj}
+        if origin:
+            # the same model reached by another public route (mc/origins.py)
+            from .. import origins
+
+            try:
+                model = origins.derive(model, origin)
+            except origins.OriginUnavailable:
+                stats["origin_unavailable"] = stats.get("origin_unavailable", 0) + 1
+                continue
         targets = []
         if z > 0:
             targets += [("half", z / 2), ("optimum", z)]
@@ -295,6 +313,14 @@ def run_task(payload):
         ids = families.rxn_ids(net)
         bnd = [i for i, c in zip(ids, net) if families.is_boundary(c)]
         small = tuple((-2, 2) if families.is_boundary(c) else (0, 10) for c in net)
+        if payload.get("origins"):
+            from .. import origins
+
+            for bounds in (tuple(families.default_bounds(c) for c in net), small):
+                for origin in origins.ORIGINS:
+                    stats["models_from_origins"] = stats.get("models_from_origins", 0) + 1
+                    violations.extend(check_minimal_medium(net, bounds, set(bnd[:1]), stats, False, origin))
+            continue
         for bounds in list(families.bound_assignments(net, P["d"], P["menu"])) + [small]:
             for flip in ([()] + [(b,) for b in bnd] + ([tuple(bnd)] if len(bnd) > 1 else [])):
                 stats["models"] = stats.get("models", 0) + 1
@@ -311,7 +337,7 @@ def replay(case):
         return [{"sig": s, "detail": d} for s, c, d in viol]
     net = tuple(tuple(c) for c in case["net"])
     bounds = tuple((_u(a), _u(b)) for a, b in case["bounds"])
-    out = check_minimal_medium(net, bounds, set(case["flip"]), {}, rich=True)
+    out = check_minimal_medium(net, bounds, set(case["flip"]), {}, rich=True, origin=case.get("origin"))
     return [{"sig": s, "detail": d} for s, c, d in out if json.loads(json.dumps(c)) == case]
 
 
@@ -337,6 +363,14 @@ def explore(ctx):
     off = ctx.seed % len(nets)
     nets = nets[off:] + nets[:off]
     payloads = [{"kind": "mm", "params": P, "nets": nets[i:i + 1], "rich": ctx.thorough} for i in range(len(nets))]
+    # origins: three-reaction members (first exchange written backwards; default and small exchange bounds) reached by every
+    # other public route (mc/origins.py)
+    from .. import origins
+
+    no = [n for n in nets if len(n) == 3]
+    if ctx.tier == "quick":
+        no = no[::2]
+    payloads += [{"kind": "mm", "params": P, "nets": no[i:i + 1], "origins": True} for i in range(len(no))]
     stats = {}
     with ctx.pool(timeout=3000) as pool:
         for i, status, r0 in pool.imap(payloads):
@@ -362,6 +396,9 @@ def explore(ctx):
         "exhaustive": bool(res["closed"]), "medium_states": res["states"], "medium_transitions": res["transitions"],
         "medium_closed": bool(res["closed"]), "minimal_medium_models": stats.get("models", 0),
         "minimal_medium_calls": stats.get("evaluations", 0), "exactlp_selftest_lps": n_self,
+        "origins_pass": "%d three-reaction networks x 2 bound profiles x %d origins (%s): %d models; route itself failed for %d" % (
+            len(no), len(origins.ORIGINS), ", ".join(origins.ORIGINS), stats.get("models_from_origins", 0),
+            stats.get("origin_unavailable", 0)),
     })
     ctx.sample({"medium_state": [list(s) for s in inits[1]], "op": [["EX_A", 3]]})
     ctx.sample({"minimal_medium_net": [list(c) for c in nets[0]]})
